@@ -25,6 +25,12 @@ func sessionCheckWith(prop, tier, module, mcCfg, dumpCfg string, extraNote strin
 		rc, rev := repoTestTraces(run, map[string]bool{"C03": true})
 		fmt.Printf("C03: %d connections (%d hook events) of the repository's own test suite validated by TLC against the observer invariants\n", rc, rev)
 		extraCases += rc
+		// the delivery goroutine held before it calls the backend: Data only inside its own transaction
+		mcv := modelCheck("Verdict", "MC_Verdict.cfg", 4)
+		nl := lateStartFamily(run)
+		fmt.Printf("C03: Verdict.tla %d states; %d late-start schedules (delivery goroutine held at its start) judged by TLC\n", mcv.Distinct, nl)
+		extraStates += mcv.Distinct
+		extraCases += nl
 	}
 	mc := modelCheck(module, mcCfg, 16)
 	gs := dumpEdges(module, dumpCfg)
